@@ -73,6 +73,7 @@ def run(ck, ctx):
                       construct=f"{f}: in-place {e.data.get('how')} on parameter {tgt}")
             ck.ob("R11.1", f"{name}: no argument is modified on any path", not ws, r1.value, name,
                   f"{sum(1 for e in r1.effects if e.kind == 'write')} in-place operations inspected")
+            no_outliving_writes(ck, "R11.2", name, r1)
         ck.guard(r111, f"R11.1 {name}")
 
         # ------------------------------------------------------------ R11.2 history
@@ -130,6 +131,20 @@ def run(ck, ctx):
     def r114():
         r114_body(ck, R, I)
     ck.guard(r114, "R11.4")
+
+
+def no_outliving_writes(ck, RULE, name, r1):
+    """objects that outlive the call - module-level values and results handed out by a memoising decorator - are
+    not modified in place (the next call would see the modified object: history dependence)"""
+    wg = writes(r1, kinds=("global",))
+    for e, hit in wg:
+        f = e.funcs()[-1] if e.funcs() else name
+        what = "; ".join(sorted({str((x.extra or {}).get("global")) for x in hit}))[:160]
+        ck.ob(RULE, f"{name}: no in-place write to an object that outlives the call [{f} at {e.where()}]",
+              False, e.node, f, f"{e.data.get('how')} on {what}: the next call sees the modified object",
+              construct=f"{f}: in-place {e.data.get('how')} on a module-level / memoised object")
+    ck.ob(RULE, f"{name}: no module-level or memoised object is modified in place", not wg, r1.value, name,
+          f"{len(wg)} such write(s)")
 
 
 def equivariance(ck, RULE, I, name, r1, entry):
